@@ -90,6 +90,7 @@ type Report struct {
 	Samples      []map[string]any  `json:"samples"`
 	Violations   []ReportViolation `json:"violations"`
 	OtherViols   map[string]int    `json:"violations_of_other_properties"`
+	ClassCounts  map[string]int    `json:"violation_class_counts"` // runs per violation class of this property (all runs, not only the reported one)
 	EventHashes  map[string]string `json:"event_hashes,omitempty"`
 	WallS        float64           `json:"wall_s"`
 	Stopped      string            `json:"stopped"`
@@ -184,7 +185,7 @@ func Main(engines map[string]Engine) {
 
 	start := time.Now()
 	rep := Report{Engine: e.Name(), Property: *prop, Tier: *tier, Seed: *seed, FirstRun: *first, Stride: *stride,
-		Faults: map[string]int{}, Probes: map[string]int{}, SimTime: map[string]int{}, OtherViols: map[string]int{},
+		Faults: map[string]int{}, Probes: map[string]int{}, SimTime: map[string]int{}, OtherViols: map[string]int{}, ClassCounts: map[string]int{},
 		Fingerprints: []uint64{}, Violations: []ReportViolation{}, Samples: []map[string]any{}}
 	if *hashes {
 		rep.EventHashes = map[string]string{}
@@ -234,6 +235,9 @@ func Main(engines map[string]Engine) {
 			}
 		}
 		cls, v := classOf(res.Viols, *prop)
+		if v != nil {
+			rep.ClassCounts[cls]++
+		}
 		if v == nil || seenClass[cls] {
 			continue
 		}
